@@ -1682,7 +1682,7 @@ func (c *twoPhaseCommitter) cleanup(ctx context.Context) {
 				c.resolveFlushedLocks(
 					retry.NewBackofferWithVars(cleanupKeysCtx, cleanupMaxBackoff, c.txn.vars),
 					c.pipelinedCommitInfo.pipelinedStart,
-					c.pipelinedCommitInfo.pipelinedEnd,
+					kv.NextKey(c.pipelinedCommitInfo.pipelinedEnd), // pipelinedEnd is the largest flushed key itself
 					false,
 				)
 			}
